@@ -606,7 +606,7 @@ def examine_instance(ctx, inst):
                 ctx.labels["threads:%s" % (threads or "n/a")] += 1
                 if nvars >= spec.nt_min and width is not None:
                     ctx.nontrivial.add("%s/%s/%s/%s" % (ex, h, width, threads))
-                    if len(ctx.samples) < 2 and kind is None and h not in ctx.sampled:
+                    if len(ctx.samples) < 2 and kind is None and h not in ctx.sampled and ctx.instances > (4, 40)[len(ctx.samples)]:
                         ctx.sampled.add(h)
                         ctx.samples.append(dict(make_case(ex, inst, text, width, threads, expected), printed=parse_output(ex, res["out"])[0]))
             if kind is None:
@@ -813,14 +813,14 @@ def run_check(tier, only, jobs, known, t0):
                      "exhaustive_subspaces": {"golomb sizes": list(GOLOMB_SIZES[tier]), "misp/mcp": "all graphs on <= 3 unit-weight vertices"},
                      "inconclusive_timeouts": len(inconclusive)},
         "assumptions": ASSUMPTIONS, "wall_s": round(wall, 1), "violations": len(violations)}
+    os.makedirs(OUT + "/evidence", exist_ok=True)
+    with open(OUT + "/evidence/C16.json", "w") as f:
+        f.write(json.dumps(evidence, indent=1) + "\n")
     try:
         import jsonschema
-        jsonschema.validate(evidence, json.load(open(SCHEMA)))
-        os.makedirs(OUT + "/evidence", exist_ok=True)
-        with open(OUT + "/evidence/C16.json", "w") as f:
-            f.write(json.dumps(evidence, indent=1) + "\n")
+        jsonschema.validate(json.load(open(OUT + "/evidence/C16.json")), json.load(open(SCHEMA)))
     except Exception as e:
-        errors.append("evidence file does not validate against %s: %s" % (SCHEMA, str(e).splitlines()[0]))
+        errors.append("%s/evidence/C16.json does not validate against %s: %s" % (OUT, SCHEMA, str(e).splitlines()[0]))
     for line in known_lines:
         print(line)
     for v, path in violations:
